@@ -1,4 +1,5 @@
 import time  # noqa: F401
+import threading
 from rpyc.lib import Timeout
 from rpyc.lib.compat import TimeoutError as AsyncResultTimeout
 
@@ -8,7 +9,7 @@ class AsyncResult(object):
     will eventually have a result. Use the :attr:`value` property to access the
     result (which will block if the result has not yet arrived).
     """
-    __slots__ = ["_conn", "_is_ready", "_is_exc", "_callbacks", "_obj", "_ttl"]
+    __slots__ = ["_conn", "_is_ready", "_is_exc", "_callbacks", "_obj", "_ttl", "_lock"]
 
     def __init__(self, conn):
         self._conn = conn
@@ -17,6 +18,7 @@ class AsyncResult(object):
         self._obj = None
         self._callbacks = []
         self._ttl = Timeout(None)
+        self._lock = threading.Lock()
 
     def __repr__(self):
         if self._is_ready:
@@ -30,13 +32,14 @@ class AsyncResult(object):
         return "<AsyncResult object (%s) at 0x%08x>" % (state, id(self))
 
     def __call__(self, is_exc, obj):
-        if self.expired:
-            return
-        self._is_exc = is_exc
-        self._obj = obj
-        self._is_ready = True
-        callbacks = self._callbacks[:]
-        del self._callbacks[:]
+        with self._lock:
+            if self.expired:
+                return
+            self._is_exc = is_exc
+            self._obj = obj
+            self._is_ready = True
+            callbacks = self._callbacks[:]
+            del self._callbacks[:]
         error = None
         for cb in callbacks:
             try:
@@ -64,10 +67,11 @@ class AsyncResult(object):
 
         :param func: the callback function to add
         """
-        if self._is_ready:
-            func(self)
-        else:
-            self._callbacks.append(func)
+        with self._lock:
+            if not self._is_ready:
+                self._callbacks.append(func)
+                return
+        func(self)
 
     def set_expiry(self, timeout):
         """Sets the expiry time (in seconds, relative to now) or ``None`` for
